@@ -9,7 +9,7 @@ import json, os, shutil, subprocess, sys, time
 def sh(cmd, cwd, timeout=1500):
     env = dict(os.environ, GOFLAGS="-mod=mod", GOPROXY="off", GOTOOLCHAIN="auto")
     env.pop("GOSUMDB", None)
-    p = subprocess.run(cmd, cwd=cwd, env=env, shell=True, capture_output=True, text=True, timeout=timeout)
+    p = subprocess.run(cmd, cwd=cwd, env=env, shell=True, capture_output=True, text=True, errors="replace", timeout=timeout)
     return p.returncode, (p.stdout + p.stderr)
 
 def main():
